@@ -904,6 +904,7 @@ func c03RValid(c *Ctx, r *Report) {
 
 func c03Reflect(c *Ctx, r *Report) {
 	c03RValid(c, r)
+	c03RIface(c, r)
 	a := c.anchors()
 	if a.reflArgs == nil || a.reflectRes == nil {
 		r.undecided("C03.REFLECT", "anchor: reflection argument builder", token.NoPos, "not found")
